@@ -146,4 +146,52 @@ def execSBody (e : SEnv) : List SStmt → SSt → SSt
   | [], st => st
   | s :: ss, st => execSBody e ss (execS e st s)
 
+/-! ## the three setup loops of LinearProgramming::solveLP (every kept entry: addColumn, setZero, writes, one push) -/
+
+inductive MIx where
+  | rule | weight
+  deriving Repr, DecidableEq
+
+inductive MVal where
+  | lit (q : Rat)
+  | negVal       -- `-f.values[sId]`
+  | discVal      -- `+discount * f.values(sId, aId)`
+  | val          -- `f.values(sId, aId)`
+  deriving Repr
+
+inductive MStmt where
+  | addColumn                            -- `lp.addColumn();`  (the buffer is re-allocated: content unspecified, one longer)
+  | setZero                              -- `lp.row.setZero();`
+  | write (ix : MIx) (v : MVal)          -- `lp.row[ix] = v;`
+  | pushEq (rhs : MVal)                  -- `lp.pushRow(LP::Constraint::Equal, rhs);`
+  deriving Repr
+
+structure MEnv where
+  rule : Nat
+  weight : Nat
+  q : Rat
+  disc : Rat
+  junk : List Rat      -- what the re-allocated buffer holds after `addColumn`
+
+def mIx (e : MEnv) : MIx → Nat
+  | .rule => e.rule
+  | .weight => e.weight
+
+def mVal (e : MEnv) : MVal → Rat
+  | .lit q => q
+  | .negVal => -e.q
+  | .discVal => e.disc * e.q
+  | .val => e.q
+
+def execM (e : MEnv) (st : SSt) : MStmt → SSt
+  | .addColumn => { st with buf := e.junk }
+  | .setZero => { st with buf := List.replicate st.buf.length 0 }
+  | .write ix v => { st with buf := st.buf.set (mIx e ix) (mVal e v) }
+  | .pushEq rhs => { st with pushed := st.pushed ++ [(st.buf, mVal e rhs)] }
+
+def execMBody (e : MEnv) : List MStmt → SSt → SSt
+  | [], st => st
+  | s :: ss, st => execMBody e ss (execM e st s)
+
+
 end AITB.FLP
